@@ -44,7 +44,7 @@ def run(chk, tier, seed):
                    "non-trivial = at least two traces in the store",
            "model_runs": m["runs"], "model_drift_executions": ndrift, "conformance_action_counts": st.get("actions", {}),
            "exhaustive": False}
-    return cov, ["no span has its parent in another trace", "one root span per trace", "timestamps on a one-minute grid",
+    return cov, ["no span has its parent in another trace", "one root span per trace", "timestamps on a one-minute grid shifted by 0, 200 or 77 ns (so that they are not exactly representable as doubles)",
                  "PV sequences of twins are compared on the traces output by both runs (removing a trace may move the "
                  "data window)"]
 
